@@ -18,6 +18,7 @@ Definition kstep (st : store) (c : cmd) (k : key) (x : kstate) : Prop :=
   | ResolveLock s0 e0 s c => in_range s0 e0 k = true /\ resolve_key s c k ks = Some x
   | BatchResolveLock s0 e0 infos => in_range s0 e0 k = true /\ batch_resolve_key infos k ks = Some x
   | GC s0 e0 sp => in_range s0 e0 k = true /\ gc_key sp k ks = Some x
+  | DeleteRange s0 e0 => in_range s0 e0 k = true /\ x = empty_ks
   | _ => False
   end.
 
@@ -126,6 +127,7 @@ Proof.
   - (* PessLock *)
     pose proof (pess_lock_all_rel st r (p_keys r) (p_keys r) st (incl_refl _) (upd_rel_refl _ _ Hs)) as H.
     destruct (pess_lock_all st st r (p_keys r)) as [[acc es] rs]. cbn [fst] in *.
+    destruct ((match es with [] => true | _ => p_force r end) && negb (Nat.eqb (length rs) (length (p_keys r)))); cbn [fst]; [apply upd_rel_refl; exact Hs|].
     destruct es; cbn [fst]; [exact H|apply upd_rel_refl; exact Hs].
   - (* PessRollback *)
     cbn [fst]. apply (upd_fold_keys st (kstep st (PessRollback s e ks start for_update)) (fun k => pess_rollback_key (get_ks st k) start for_update)).
@@ -150,6 +152,10 @@ Proof.
   - apply upd_rel_refl; exact Hs.
   - apply upd_rel_refl; exact Hs.
   - apply upd_rel_refl; exact Hs.
+  - apply upd_rel_refl; exact Hs.
+  - apply upd_rel_refl; exact Hs.
+  - cbn [fst]. destruct (map_range_rel st s e (fun _ _ => Some empty_ks) Hs) as [H1 H2]. split; [exact H1|].
+    intros k. destruct (H2 k) as [E|[Hr E]]; [left; exact E|right; split; [exact Hr|]]. inversion E. reflexivity.
   - apply upd_rel_refl; exact Hs.
 Qed.
 
